@@ -68,10 +68,11 @@ def _block_to_markdown(block, lines, level=3):
         level: Heading level
     """
     from octave_mcp.core.ast_nodes import Assignment, Block
+    from octave_mcp.mcp.eject import _format_markdown_value
 
     for child in block.children:
         if isinstance(child, Assignment):
-            lines.append(f"- **{child.key}**: {child.value}")
+            lines.append(f"- **{child.key}**: {_format_markdown_value(child.value)}")
         elif isinstance(child, Block):
             lines.append(f"{'#' * level} {child.key}")
             lines.append("")
@@ -85,6 +86,7 @@ def _ast_to_markdown(doc):
     matching the MCP octave_eject tool behavior.
     """
     from octave_mcp.core.ast_nodes import Assignment, Block
+    from octave_mcp.mcp.eject import _format_markdown_value
 
     lines = [f"# {doc.name}", ""]
 
@@ -92,12 +94,12 @@ def _ast_to_markdown(doc):
         lines.append("## META")
         lines.append("")
         for key, value in doc.meta.items():
-            lines.append(f"- **{key}**: {value}")
+            lines.append(f"- **{key}**: {_format_markdown_value(value)}")
         lines.append("")
 
     for section in doc.sections:
         if isinstance(section, Assignment):
-            lines.append(f"**{section.key}**: {section.value}")
+            lines.append(f"**{section.key}**: {_format_markdown_value(section.value)}")
             lines.append("")
         elif isinstance(section, Block):
             lines.append(f"## {section.key}")
